@@ -23,8 +23,8 @@ def rat(cols, sigma):
     return np.array([[c / float(p["d"]) * sigma for c in p["v"]] for p in cols]).T      # (3, n)
 
 
-def form_point(p, form, d):
-    v = [float(c) for c in p[:d]]
+def form_point(p, form, d, et="float"):
+    v = [int(c) if et == "int" else float(c) for c in p[:d]]
     if form == "list":
         return v
     if form == "tuple":
@@ -84,10 +84,13 @@ def routes(dim, call, sigma):
         return
     if call["op"] == "one-to-many":
         h = call["pose"]
+        et = call.get("et", "float")
+        if et == "int" and sigma != 1.0:
+            return                      # integer points exist at the unit scale only
         if form == "matrix":
-            P = np.array(pts, dtype=float).T[:dim, :]
+            P = np.array(pts, dtype=int if et == "int" else float).T[:dim, :]
         else:
-            P = form_point(pts[0], form, dim)
+            P = form_point(pts[0], form, dim, et)
         if dim == 3:
             T, R, q = gamma.T4(h, sigma), gamma.R3(h), gamma.qvec(h)
             yield "SE3*", (lambda: SE3(T) * P), "full"
@@ -188,8 +191,8 @@ def run_case(j, dim, e, sigma):
     many = call["op"] in ("many-to-one", "many-inv")
     for label, thunk, which in routes(dim, call, sigma):
         exp = exp_full if which == "full" else exp_rot
-        feat = "%s;%s;n=%d;sigma=%g" % (call["op"], call["form"], n, sigma)
-        cid = (label, call["op"], call["form"], n, sigma)
+        feat = "%s;%s%s;n=%d;sigma=%g" % (call["op"], call["form"], ";int" if call.get("et") == "int" else "", n, sigma)
+        cid = (label, call["op"], call["form"], call.get("et", "float"), n, sigma)
         detail = {"kind": "points", "dim": dim, "route": label, "sigma": sigma, "call": call,
                   "expected": exp.tolist()}
         try:
